@@ -123,6 +123,33 @@ impl Ctx {
             };
             let so = if tm == 1 { canon_text(&doc) } else { doc.clone() };
             self.emit2(rk, typ.into(), hash, &area, &salt, format!("doc:{tm}:{}", hx(&doc)), Some(so.clone()), ds.clone(), dv, ok, "document");
+            // the same document fed to the public streaming hasher (SignatureConfig::into_hasher) in pieces, among them empty
+            // ones: the digest signed is the digest of the document, whatever the writes were
+            for sched in 0..3u64 {
+                if n == 0 && sched > 0 { continue; }
+                if let Some((cfg3, area3, salt3)) = self.config(rk, typ, hash, variant) {
+                    use std::io::Write;
+                    let mut pieces: Vec<&[u8]> = Vec::new();
+                    match sched {
+                        // cut after every CR (or once in the middle) with an empty write at every cut
+                        0 => { let mut at = 0; for i in 0..doc.len() { if doc[i] == 13 && i + 1 < doc.len() { pieces.push(&doc[at..=i]); pieces.push(&doc[0..0]); at = i + 1; } } pieces.push(&doc[at..]); }
+                        // one octet at a time for short documents, empty writes in between
+                        1 => { if doc.len() <= 100 { for i in 0..doc.len() { pieces.push(&doc[i..=i]); if i % 2 == 0 { pieces.push(&doc[0..0]); } } } else { let m = doc.len() / 2; pieces.push(&doc[..m]); pieces.push(&doc[0..0]); pieces.push(&doc[m..]); } }
+                        _ => { pieces.push(&doc[0..0]); pieces.push(&doc[..]); pieces.push(&doc[0..0]); }
+                    }
+                    rk.clear();
+                    let r = guarded(|| -> Option<bool> {
+                        let mut h = cfg3.into_hasher().ok()?;
+                        for p in &pieces { if p.is_empty() { h.write(p).ok()?; } else { h.write_all(p).ok()?; } }
+                        let sig = h.sign(rk, &Password::empty()).ok()?;
+                        let ds3 = rk.last();
+                        rk.clear();
+                        let ok = sig.verify(rk, &doc[..]).is_ok();
+                        Some((ds3, rk.last(), ok)).map(|(a, b, ok)| { self.emit2(rk, typ.into(), hash, &area3, &salt3, format!("doc:{tm}:{}", hx(&doc)), Some(so.clone()), a, b, ok, "document-streamed-hasher"); true })
+                    });
+                    if !matches!(r, Ok(Some(true))) { self.out.case("", &[], &["streamed-hasher".into(), tm.to_string(), sched.to_string(), hx(&doc)], "no signature", Some(false), "document-streamed-hasher-failed"); }
+                }
+            }
             // the same signature inside a message: prefix form (signature packet, then literal data) ...
             if let Some((cfg2, area2, salt2)) = self.config(rk, typ, hash, variant) {
                 use pgp::packet::PacketTrait;
